@@ -214,9 +214,46 @@ class FeFamily(Family):
             out.append(f"fe mq={mq:x} mode=peer | " + " | ".join(ops))
         return out
 
+    def gen_gate(self, rng):
+        """frontend gates, systematically: every gated API call with exactly its bit missing / only its bit / none / all
+        acknowledged, VHOST_USER_F_PROTOCOL_FEATURES offered or not and acknowledged or not (peer mode: a refused call must
+        leave the wire untouched)"""
+        gated = {"get_queue_num": (0, "get_queue_num", 17, vu.u64(2)), "get_config 0 8 0 8": (9, None, 24, vu.config(0, 8, 0, bytes(8))),
+                 "set_config 0 0 0102": (9, None, 25, ""), "set_backend_req_fd": (5, None, 21, ""),
+                 "get_inflight_fd 1000 0 1 100": (12, None, 31, vu.inflight(0x1000, 0, 1, 0x100)),
+                 "set_inflight_fd 1000 0 1 100": (12, None, 32, ""), "get_max_mem_slots": (15, None, 36, vu.u64(8)),
+                 "add_mem_region 1000 1000 7f0000 0": (15, None, 37, ""), "remove_mem_region 1000 1000 7f0000 0": (15, None, 38, ""),
+                 "reset_device": (13, None, 34, ""), "get_shared_object 1234": (18, None, 41, ""),
+                 "get_shmem_config": (21, None, 44, C.le(0, 4) + C.le(0, 4) + "00" * 2048),
+                 "set_device_state_fd 0 0": (19, None, 42, vu.u64(0x100)), "check_device_state": (19, None, 43, vu.u64(0)),
+                 "postcopy_advise": (8, None, 28, ""), "postcopy_listen": (8, None, 29, ""), "postcopy_end": (8, None, 30, "")}
+        bits = sorted(set(v[0] for v in gated.values()) | {3})
+        full = sum(1 << b for b in bits)
+        out = []
+        for text, (bit, _, code, body) in gated.items():
+            nf = 1 if code in (31, 41, 28) else 0
+            for pm in (full & ~(1 << bit), 1 << bit, 0, full):
+                r = reply(code, body, nf) if body or code in (41, 28) else "-"
+                ops = [f"get_features r={reply(1, vu.u64(vu.F_PROTOCOL_FEATURES))}", f"set_features {vu.F_PROTOCOL_FEATURES:x} r=-",
+                       f"get_protocol_features r={reply(15, vu.u64(ALLP))}", f"set_protocol_features {pm:x} r=-", f"{text} r={r} then-close"]
+                out.append("fe mq=2 mode=peer | " + " | ".join(ops))
+        # the protocol-feature exchange and ring enable depend on VHOST_USER_F_PROTOCOL_FEATURES being offered resp. acknowledged
+        for offered in (vu.F_PROTOCOL_FEATURES, 0, vu.F_PROTOCOL_FEATURES | 1, 1):
+            for acked in (vu.F_PROTOCOL_FEATURES, 0, vu.F_PROTOCOL_FEATURES | 1, 1):
+                pre = [f"get_features r={reply(1, vu.u64(offered))}", f"set_features {acked:x} r=-"]
+                for last in (f"set_vring_enable 1 1 r=-", f"set_vring_enable 0 0 r=-", f"get_protocol_features r={reply(15, vu.u64(ALLP))}",
+                             f"set_protocol_features {ALLP:x} r=-"):
+                    out.append("fe mq=2 mode=peer | " + " | ".join(pre + [last]))
+        # before any negotiation
+        for text in list(gated) + ["set_vring_enable 0 1", "get_protocol_features", f"set_protocol_features {ALLP:x}"]:
+            out.append(f"fe mq=2 mode=peer | {text} r=-")
+        return out
+
     def generate(self, tier, rng):
         sz = self.sizes[tier]
         L = []
+        if "gate" in self.modes:
+            L += self.gen_gate(rng)
         if "srv" in self.modes:
             L += self.gen_srv(rng, sz["srv"])
         if "peer" in self.modes:
